@@ -479,7 +479,10 @@ Inductive op :=
 | OSetWriteable (b : bool)
 | OReceive (f : ltxrec)
 | ORetention (ages : list bool) (backup : bool) (hwm : N)
-| OImport (pages : list (N * pg)) (commit : N) (ok : bool).
+| OImport (pages : list (N * pg)) (commit : N) (ok : bool)
+| OCommitJournalFail (commit : N).   (* a journal commit that fails inside LiteFS before the transaction file is published
+                                        (db.go CommitJournal: create / encode / sync / forward / rename error): nothing it touched
+                                        survives - the cleared checksums of pages beyond the new size are put back *)
 
 Definition set_writeable (s : st) (b : bool) : st :=
   mkSt b (lockpg s) (dbfile s) (pageN s) (wal_mode s) (chk_pages s) (chk_blocks s) (wal_chk s) (wal_latest s)
@@ -500,6 +503,7 @@ Definition step (s : st) (o : op) : outcome * st :=
   | OSetWriteable b => (Done, set_writeable s b)
   | OReceive f => op_receive s f
   | OImport pages commit ok => op_import s pages commit ok
+  | OCommitJournalFail _ => (Done, s)
   | ORetention ages backup hwm =>
       (* ages: one flag per file of the directory, in order; a file is identified by its max TXID *)
       let tagged := combine (map l_max (ltxdir s)) ages in
